@@ -638,8 +638,46 @@ def only_the_backend_talks_to_s3(ctx: Ctx, rid: str = "C17.R6") -> None:
     ctx.ob(rid, None, "raw S3 access censused", None, True, f"{n} site(s) outside {sorted(allowed)}", nontrivial=False)
 
 
+def backend_kinds_are_dispatched(ctx: Ctx, rid: str = "C17.R8") -> None:
+    ctx.rule(rid, "the backend-kind dispatch of the read-path sanitiser is exhaustive: a concrete StorageBackend class of the package "
+             "that is neither the local nor the S3 backend (nor derived from one) falls into _get_arrow_path's unknown-backend "
+             "default - a plain join with no realpath / containment test - unless the dispatch is taught about it", 1)
+    from .c20 import family, SB
+    base = ctx.prog.cls(f"{SB}.StorageBackend")
+    known = {c.qname for nm in ("LocalStorageBackend", "S3StorageBackend") for c in family(ctx, ctx.prog.cls(f"{SB}.{nm}"))}
+    extra = [c for c in family(ctx, base) if c is not base and c.qname not in known]
+    f = ctx.fn("data_operations.DataFileManager._get_arrow_path")
+    # names the sanitiser (and what it calls, three levels deep) tests with isinstance
+    seen_f = {f.qname}
+    frontier = [f]
+    tested: Set[str] = set()
+    for _d in range(4):
+        nxt = []
+        for fn_ in frontier:
+            for x in ast.walk(fn_.node):
+                if isinstance(x, ast.Call) and isinstance(x.func, ast.Name) and x.func.id == "isinstance" and len(x.args) == 2:
+                    tested |= {(dotted(t_) or "").split(".")[-1] for t_ in (x.args[1].elts if isinstance(x.args[1], ast.Tuple) else [x.args[1]])}
+                if isinstance(x, ast.Call):
+                    try:
+                        cal = ctx.prog.resolve_call(x, fn_)
+                    except Exception:
+                        cal = None
+                    for t_ in (cal.funcs if cal is not None and cal.kind == "func" else []):
+                        if t_.qname not in seen_f:
+                            seen_f.add(t_.qname)
+                            nxt.append(t_)
+        frontier = nxt
+    missing = sorted(c.name for c in extra if c.name not in tested)
+    ctx.ob(rid, f, "every backend kind of the package reaches a checked resolver", None, not missing,
+           f"backend classes: local + S3 families ({len(known)}), {len(extra)} other kind(s), all tested by the dispatch" if not missing else
+           f"{missing} is a StorageBackend of the package the dispatch never tests for: a table opened through it resolves data-file "
+           "paths with the unknown-backend default (os.path.join, no realpath, no containment test) - '../x' and symlinks escape the root",
+           text="backend kinds")
+
+
 def check(ctx: Ctx) -> None:
     only_the_backend_talks_to_s3(ctx)
+    backend_kinds_are_dispatched(ctx)
     r1(ctx)
     r2(ctx)
     r3(ctx)
